@@ -27,7 +27,7 @@ N_SPECS = {"quick": 40000, "thorough": 1500000}
 SRC_FL = ["async_class", "async_gen", "sync_iter", "sync_gen", "getitem_seq", "async_class_bare"]
 FN_FL = ["def", "async_def", "callobj", "partial", "awaitobj"]
 EXC = ["Injected", "TypeError", "ValueError", "LookupError", "InjectedBase", "RuntimeError", "AttributeError", "KeyError",
-       "IndexError", "AssertionError"]
+       "IndexError", "AssertionError", "Exception", "BaseException"]
 
 
 def cases(tier, seed, shard, nshards):
